@@ -36,15 +36,15 @@ type kase struct {
 	Script   string `json:"script"`
 	Modelled bool   `json:"modelled"`
 	// direct expand.ReadFields observations on the logical line: for n = -1, 0, 1, 2, 3, k
-	Line   []int   `json:"line"`
-	RFN    []int   `json:"rf_n"`
-	RF     []any   `json:"rf"` // per n: [][]int or "P"
-	Interp string  `json:"interp"`
-	Vals   [][]int `json:"vals"` // parsed interp output: status, then values (nil if unparsable)
-	Bash   string  `json:"bash"`
-	Fails  []string `json:"fails"`
-	Class  string   `json:"class"`
-	NoOracle string `json:"no_oracle"` // why bash is not consulted for this case ("" = it is)
+	Line     []int    `json:"line"`
+	RFN      []int    `json:"rf_n"`
+	RF       []any    `json:"rf"` // per n: [][]int or "P"
+	Interp   string   `json:"interp"`
+	Vals     [][]int  `json:"vals"` // parsed interp output: status, then values (nil if unparsable)
+	Bash     string   `json:"bash"`
+	Fails    []string `json:"fails"`
+	Class    string   `json:"class"`
+	NoOracle string   `json:"no_oracle"` // why bash is not consulted for this case ("" = it is)
 
 	ifs   string
 	input string
